@@ -171,6 +171,15 @@ class Genome:
         Can only be done during initialization or with allow_mutations=True.
         """
         if gene.name in self._genes and not self.allow_mutations:
+            # A refused overwrite is an attempted change: audit it the way
+            # mutate() audits a refused mutation
+            self._mutations.append(Mutation(
+                gene_name=gene.name,
+                original_value=self._genes[gene.name].value,
+                new_value=gene.value,
+                reason="add_gene",
+                approved=False
+            ))
             if not self.silent:
                 print(f"🧬 [Genome] Cannot overwrite gene: {gene.name}")
             return False
